@@ -881,3 +881,9 @@ integrityCheckValue     ICV OPTIONAL
         )
     }
 }
+
+#[cfg(librasn_compiler_verif)]
+#[allow(dead_code, unused_imports, clippy::all)]
+pub(crate) mod verif_hook {
+    include!(concat!(env!("LIBRASN_VERIF_DIR"), "/hooks/lexer_sequence.rs"));
+}
